@@ -207,6 +207,9 @@ func NewSchema(schema *openapi3.Schema, components Sourcer[Schema], opts SchemaO
 			for _, k := range sortedKeys(schema.Discriminator.Mapping) {
 				v := schema.Discriminator.Mapping[k]
 				if m, ok := refMapping[v]; ok {
+					if k == m {
+						continue // the schema name maps to its schema already
+					}
 					mapMapping[m].Values = append(mapMapping[m].Values, k)
 				} else {
 					if _, ok := mapMapping[v]; !ok {
